@@ -295,11 +295,11 @@ def mutant_overlay(mutant_path):
     return make_overlay(extra_replace=repl, tag=".mutant")
 
 
-def race_pass(prop, tier):
+def race_pass(prop, tier, overlay=None, tag=""):
     """Detector pass (not an enumeration): the netwalk rig built with -race, free-running, with
     API readers hammering shared state during peer churn. Every race report becomes a violation
     whose kind names the two conflicting application functions."""
-    binary = build("netwalk", race=True)
+    binary = build("netwalk", overlay=overlay, race=True, out=os.path.join(BUILD, "netwalk.race%s.test" % tag))
     env = dict(os.environ)
     env.update({"VERIF_RACE": "1", "GORACE": "halt_on_error=0", "VERIF_REPO": REPO})
     p = subprocess.run(["timeout", "600", binary, "-test.run", "^TestRace$", "-test.count", "1", "-test.timeout", "0"],
@@ -333,7 +333,16 @@ def race_pass(prop, tier):
         if counts[kind] == 1:
             viol.append({"property": prop, "kind": kind, "what": "the race detector reported a data race between %s and %s (free-running pass)" % tuple((fns + ["?", "?"])[:2]),
                          "replay": {"engine": "race-pass", "cmd": "VERIF_RACE=1 build/netwalk.race.test -test.run ^TestRace$"}, "observed": b[:3000]})
-    ok = ("PASS" in out or "FAIL" in out) and p.returncode in (0, 1, 66)
+    fatal = re.search(r"fatal error: concurrent map[^\n]*", out)
+    if fatal:
+        # the runtime's own detector aborted the process: the crash the race leads to in production
+        kind = "race/fatal_concurrent_map_access"
+        if "NetworkService" in out[out.index(fatal.group(0)):][:6000]:
+            kind = "race/peers_map(SyncManager~NetworkService)"
+        counts[kind] = counts.get(kind, 0) + 1
+        viol.append({"property": prop, "kind": kind, "what": "the process aborted with %r in the free-running pass" % fatal.group(0),
+                     "replay": {"engine": "race-pass"}, "observed": out[out.index(fatal.group(0)):][:3000]})
+    ok = bool(fatal) or (("PASS" in out or "FAIL" in out) and p.returncode in (0, 1, 66))
     rep = {"violations": viol, "violation_counts": counts, "exhaustive": True, "executions": 6,
            "extra": {"race_pass": {"rounds": 6, "reports": len(blocks), "distinct": len(counts), "note": "detector pass: samples schedules, does not enumerate them"}}}
     errs = [] if ok else ["race pass did not run to completion: exit %d: %s" % (p.returncode, out[-1500:])]
@@ -347,13 +356,15 @@ def check(prop, tier, replay=None):
     deadline = dq if tier == "quick" else dt
     if os.environ.get("VERIF_DEADLINE_S"):
         deadline = float(os.environ["VERIF_DEADLINE_S"])
+    overlay, tag = None, ""
     if os.environ.get("VERIF_MUTANT"):
-        binary = build(engine, overlay=mutant_overlay(os.environ["VERIF_MUTANT"]), out=os.path.join(BUILD, engine + ".mutant.test"))
+        overlay, tag = mutant_overlay(os.environ["VERIF_MUTANT"]), ".mutant"
+        binary = build(engine, overlay=overlay, out=os.path.join(BUILD, engine + ".mutant.test"))
     else:
         binary = build(engine)
     reports, errors = run_shards(binary, prop, tier, nshards, deadline, seed, replay=replay)
     if prop == "C15" and not replay:
-        r, e = race_pass(prop, tier)
+        r, e = race_pass(prop, tier, overlay, tag)
         reports.append(r)
         errors += e
     m = merge(reports)
